@@ -680,7 +680,9 @@ func c06Strace(r *vf.Run) {
 			for n := 1; n <= maxPer; n += step {
 				ns = append(ns, n)
 			}
-			ns = append(ns, maxPer) // the last I/O call of the busiest thread
+			if ns[len(ns)-1] != maxPer {
+				ns = append(ns, maxPer) // the last I/O call of the busiest thread
+			}
 		}
 		var mu sync.Mutex
 		var ids []string
@@ -720,8 +722,14 @@ func c06Strace(r *vf.Run) {
 			r.Count("class_"+cls, 1)
 			r.Count("strace_kills_"+mode, 1)
 			r.Distinct(fmt.Sprintf("%s@%d", id, pos))
-			if !killed && cls != "accepted-complete" && cls != "wrong" && cls != "panic" {
-				r.Violation(id, "final-not-accepted", map[string]any{"class": cls, "explanation": "the command was not killed and exited, but its output is not a complete index", "exit": kres.Code})
+			if !killed && kres.Code != 0 {
+				// neither killed nor successful: the command (or strace) failed for another reason; a rejected or absent
+				// output is what the property allows then, and nothing can be demanded of it
+				r.Count("strace_runs_failed_without_kill", 1)
+				r.Extra("strace_run_failed_without_kill_"+fmt.Sprint(n), map[string]any{"exit": kres.Code, "stderr": tail(kres.Stderr, 600), "strace_log_tail": tail(string(lb), 600), "class": cls})
+			}
+			if !killed && kres.Code == 0 && cls != "accepted-complete" && cls != "wrong" && cls != "panic" {
+				r.Violation(id, "final-not-accepted", map[string]any{"class": cls, "explanation": "the command was not killed and exited with status 0, but its output is not a complete index", "exit": kres.Code, "stderr": tail(kres.Stderr, 600), "strace_log_tail": tail(string(lb), 600)})
 			}
 			os.Remove(out)
 			os.Remove(log)
@@ -973,8 +981,12 @@ func c06OutputSyncSweep(r *vf.Run, cid, dir, in string, d c06Data, big bool, tmp
 		cls := classifyInChild(r, id, out, d, map[string]any{"engine": "strace-sigkill-at-output-sync", "mode": mode, "dataset": d.id, "when": n, "sync_calls_on_output_before_death": pos, "sync_calls_on_output_in_full_run": total, "killed": killed})
 		r.Count("class_"+cls, 1)
 		r.Distinct(fmt.Sprintf("%s@%d", id, pos))
-		if !killed && cls != "accepted-complete" && cls != "wrong" && cls != "crash" && cls != "panic" {
-			r.Violation(id, "final-not-accepted", map[string]any{"class": cls, "explanation": "the command was not killed and exited, but its output is not a complete index"})
+		if !killed && res.Code != 0 {
+			r.Count("strace_runs_failed_without_kill", 1)
+			r.Extra("strace_run_failed_without_kill_sync"+fmt.Sprint(n), map[string]any{"exit": res.Code, "stderr": tail(res.Stderr, 600), "strace_log_tail": tail(string(lb), 600), "class": cls})
+		}
+		if !killed && res.Code == 0 && cls != "accepted-complete" && cls != "wrong" && cls != "crash" && cls != "panic" {
+			r.Violation(id, "final-not-accepted", map[string]any{"class": cls, "explanation": "the command was not killed and exited with status 0, but its output is not a complete index", "stderr": tail(res.Stderr, 600), "strace_log_tail": tail(string(lb), 600)})
 		}
 		os.Remove(out)
 		os.Remove(log)
